@@ -2,6 +2,9 @@
 P = "dulwich/pack.py"
 F19 = "dulwich/protocol.py"
 BOUNDED = {
+    "C11": [
+        {"name": "c11_roundtrip", "script": "c11_roundtrip.py", "args": []},
+    ],
     "C02": [
         {"name": "c02_roundtrip", "script": "c02_roundtrip.py", "args": []},
     ],
